@@ -101,24 +101,51 @@ theorem onehot_sum (n k : Nat) (hk : k < n) : (onehot n k).sum = 1 := by
       rw [this]; simpa using ih k (by omega)
 
 /-- **path_counts.**  Every step reports one natural number per event; a first-reaction step (every step in
-exact mode) reports a one-hot vector: exactly one event; a tau-leap step reports the Poisson variates it drew. -/
+exact mode) reports a one-hot vector: exactly one event, and that event has a positive rate at the pre-state
+(it can fire); a tau-leap step reports the Poisson variates it drew. -/
 theorem path_counts (c : Cfg) (exact : Bool) (is : List IterIn) (x0 : Vec) (t0 : Rat) :
     Steps (fun x t r =>
       r.counts.length = (c.ev x t).rates.length ∧
       (exact = true → r.branch = .exact) ∧
-      (r.branch ≠ .tau → ∃ k, k < (c.ev x t).rates.length ∧ r.counts = onehot (c.ev x t).rates.length k ∧ r.counts.sum = 1))
+      (r.branch ≠ .tau → ∃ k, k < (c.ev x t).rates.length ∧ r.counts = onehot (c.ev x t).rates.length k ∧ r.counts.sum = 1 ∧
+          ∃ rk, (c.ev x t).rates[k]? = some rk ∧ 0 < rk))
       x0 t0 (run c exact x0 t0 is) := by
   apply run_steps
   intro x t i r _ _ h
   have sp := iter_next_spec h
   refine ⟨?_, sp.mode.1, ?_⟩
-  · rcases sp.kind with ⟨_, k, hk, _, hc, _⟩ | ⟨_, _, _, hc, hlen, _⟩
+  · rcases sp.kind with ⟨_, k, hk, _, _, hc, _⟩ | ⟨_, _, _, hc, hlen, _⟩
     · rw [hc, onehot_length]
     · rw [hc, List.length_take]; omega
   · intro hb
-    rcases sp.kind with ⟨_, k, hk, _, hc, _⟩ | ⟨hb', _⟩
-    · exact ⟨k, hk, hc, by rw [hc]; exact onehot_sum _ _ hk⟩
+    rcases sp.kind with ⟨_, k, hk, _, hpos, hc, _⟩ | ⟨hb', _⟩
+    · exact ⟨k, hk, hc, by rw [hc]; exact onehot_sum _ _ hk, hpos⟩
     · exact absurd hb' hb
+
+/-- "first reaction": the step taken is the one with the smallest drawn waiting time, the first such in event
+order (`np.argmin`), among the events with a positive rate -/
+theorem first_reaction_minimal {cols : List Vec} {rates : List Rat} {lims : List Lim} {x : Vec} {t : Rat}
+    {expo : List Rat} {r : StepRes} (h : firstReaction cols rates lims x t expo = .checked r) :
+    ∃ jt k, newJumpTimes rates expo = some jt ∧ argminOpt jt = some (k, r.dt) ∧ r.counts = onehot rates.length k ∧
+      (∀ (j : Nat) (b : Rat), jt[j]? = some (some b) → r.dt ≤ b) ∧
+      (∀ (j : Nat) (b : Rat), j < k → jt[j]? = some (some b) → r.dt < b) := by
+  unfold firstReaction at h
+  split at h
+  · simp at h
+  · split at h
+    · simp at h
+    · rename_i jt hjt
+      split at h
+      · simp at h
+      · rename_i k dt harg
+        simp only [Outcome.checked.injEq] at h
+        subst h
+        have hdt : (checkJump x (updateStateWithJump x cols k 1) lims t dt (onehot rates.length k)).dt = dt := by
+          unfold checkJump; split <;> rfl
+        have hc : (checkJump x (updateStateWithJump x cols k 1) lims t dt (onehot rates.length k)).counts = onehot rates.length k := by
+          unfold checkJump; split <;> rfl
+        rw [hdt, hc]
+        exact ⟨jt, k, hjt, harg, rfl, (argminOpt_min harg).1, (argminOpt_min harg).2⟩
 
 /-- **path_increment.**  For every step and every state component `s`:
 `x_{k+1}[s] − x_k[s] = (V(x_k,t_k) · counts_k)[s]`, plus `pureOde(x_k,t_k)[s] · tau` on a tau-leap step
@@ -134,7 +161,7 @@ theorem path_increment (c : Cfg) (exact : Bool) (is : List IterIn) (x0 : Vec) (t
   have sp := iter_next_spec h
   refine ⟨sp.len, ?_⟩
   intro s hs
-  rcases sp.kind with ⟨hb, k, hk, _, hc, hx⟩ | ⟨hb, _, _, _, _, hx⟩
+  rcases sp.kind with ⟨hb, k, hk, _, _, hc, hx⟩ | ⟨hb, _, _, _, _, hx⟩
   · rw [hx, hc, if_neg hb, mulVec_onehot _ _ _ _ hk, updateStateWithJump, vadd_getD _ _ _ hs, vscale_getD]
     ring
   · rw [if_pos hb, hx, vadd_getD _ _ _ (by rw [applyCounts_length]; exact hs), applyCounts_getD _ _ _ _ hs, vscale_getD]
